@@ -32,7 +32,7 @@ ASSUMPTIONS = [
     'DT/TM/DTM/NM/SI classes are shared by all versions (same class objects), so the bulk enumeration uses one version '
     'and every other version is sampled',
 ]
-TECHNIQUE = 'exhaustive bounded string enumeration + grids + Hypothesis mutation of valid literals against a three-valued lexical reference'
+TECHNIQUE = 'exhaustive bounded string enumeration + grids + Hypothesis mutation of valid literals + coverage-guided fuzzing (atheris) against a three-valued lexical reference'
 LEVEL_TEXT = ('exploration, exhaustive inside the bounds: all strings <= 5/6 over 12 symbols for five datatypes and two levels, '
               'complete time-of-day and offset grids, calendar boundaries; sampled single-character mutations beyond')
 LEVEL_NOTE = 'trusted: the lexical reference in this module (about 80 lines, regular expressions + calendar arithmetic)'
